@@ -112,6 +112,13 @@ def cases(draw, tier):
         nl = dict(nl, gates=[g for g in nl['gates'] if g[1] == 'INPUT' or g[0] in reach])
     if shape != 'unsupported' and draw(st.booleans()):
         nl = inflate(nl, [draw(st.integers(0, 30)) for _ in range(draw(st.integers(1, 3)))])
+    extra_out = draw(st.sampled_from([None, None, None, 'input', 'input', 'repeat']))
+    if extra_out and nl['outputs']:
+        # an output that is a primary input (pass-through wire), or the same gate listed at two output positions
+        lab = nl['inputs'][draw(st.integers(0, len(nl['inputs']) - 1))] if extra_out == 'input' else nl['outputs'][0]
+        outs = list(nl['outputs'])
+        outs.insert(draw(st.integers(0, len(outs))), lab)
+        nl = dict(nl, outputs=outs)
     case = {
         'nl': nl, 'shape': shape,
         'basis': draw(st.sampled_from(['AIG', 'XAIG', 'XAIG', 'FULL', 'xaig', 'Aig', 'enum:AIG', 'enum:XAIG', 'enum:FULL'])),
